@@ -125,17 +125,24 @@ inductive WResult where
   | ok | timeout | canceled | other
   deriving DecidableEq, Repr
 
+/-- Outcome of one socket write: completed, failed with the deadline error, failed with another error. -/
+inductive SockRes where
+  | ok | timeout | err
+  deriving DecidableEq, Repr
+
 /-- External events of one run of the real mux over the scripted socket (total order of recording). -/
 inductive Ev where
-  /-- `writeToContext` called by writer `i` (`ctx`: with a cancellable context); `probe`: issued alone at quiescence -/
+  /-- a write called by writer `i`: `writeToContext` / a handle's `WriteTo` (`ctx`: with a cancellable context), or
+      `writeToUDPAddrPort` / a handle's `WriteToAddrPort` (always `ctx = false`; the monitor treats both paths alike);
+      `probe`: issued alone at quiescence -/
   | wcall (i : Nat) (ctx : Bool) (probe : Bool)
   | wret (i : Nat) (r : WResult) (probe : Bool)
   /-- the context of writer `i` is cancelled -/
   | cancel (i : Nat)
-  /-- the socket's `WriteTo` is entered by writer `i` -/
-  | sockCall (i : Nat)
-  /-- … and its outcome is decided (`ok = false`: timeout) -/
-  | sockRet (i : Nat) (ok : Bool)
+  /-- the socket's `WriteTo` (`ap = false`) or `WriteToAddrPort` (`ap = true`) is entered by writer `i` -/
+  | sockCall (i : Nat) (ap : Bool)
+  /-- … and its outcome is decided -/
+  | sockRet (i : Nat) (r : SockRes)
   /-- `abortWrite` called / returned (`ok = false`: returned the `SetWriteDeadline` error) -/
   | acall (j : Nat)
   | aret (j : Nat) (ok : Bool)
